@@ -163,6 +163,9 @@ def helper_axes(vc):
     d = vc.call(WU + ':get_data', w)
     vc.ensure('C03/get_data/post/2-D-view-of-the-single-polarisation', And(d.ok, d.value.ndim == 2, eq(d.value.shape[0], T), eq(d.value.shape[1], n),
                                                                             Implies(And(c >= 0, c < n, t >= 0, t < T), eq(d.value.at((t, c)), w.fields['data'].at((t, 0, c))))))
+    lo, hi = vc.call(WU + ':min_freq', w), vc.call(WU + ':max_freq', w)
+    first, last = fch1, fch1 + (n - 1) * foff
+    vc.ensure('C03/min_freq-max_freq/post/ends-of-the-axis-by-orientation', And(lo.ok, hi.ok, eq(lo.value, sym_if(foff > 0, first, last)), eq(hi.value, sym_if(foff > 0, last, first))))
     bad = vc.call(WU + ':get_fs', 5)
     vc.ensure('C03/get_fs/exc/ValueError-for-anything-but-a-path-or-Waterfall', And(not bad.ok, bad.exc == 'ValueError'))
 
